@@ -41,6 +41,7 @@ UnE(e) ==
                          \o (IF e.blk = NoBlock THEN <<>> ELSE Block(e.blk))
     [] e.t = "fn"   -> <<"fn", "(">> \o JoinWith([i \in 1..Len(e.ps) |-> <<e.ps[i]>>], <<",", " ">>) \o <<")">> \o Block(e.body)
     [] e.t = "assign" -> <<e.n, " ", "=", " ">> \o UnE(e.e)
+    [] e.t = "idxassign" -> UnE(e.l) \o <<"[">> \o UnE(e.i) \o <<"]", " ", "=", " ">> \o UnE(e.e)
     [] e.t = "brk"  -> <<"break">>
     [] e.t = "cnt"  -> <<"continue">>
     [] e.t = "if"   -> <<"if", " ", "(">> \o UnE(e.c) \o <<")">> \o Block(e.th)
@@ -51,6 +52,7 @@ UnE(e) ==
 
 UnS(s) ==
   CASE s.t = "text" -> s.s
+    [] s.t = "etext" -> s.src
     [] s.t = "cmt"  -> <<"<%#", " ">> \o s.s \o <<" ", "%>">>
     [] s.t = "emit" -> <<"<%=", " ">> \o UnE(s.e) \o <<" ", "%>">>
     [] s.t = "code" -> <<"<%", " ">> \o UnE(s.e) \o <<" ", "%>">>
@@ -80,6 +82,7 @@ Call(f, args) == [t |-> "call", f |-> f, args |-> args, blk |-> NoBlock]
 CallB(f, args, blk) == [t |-> "call", f |-> f, args |-> args, blk |-> blk]
 FnLit(ps, body) == [t |-> "fn", ps |-> ps, body |-> body]
 Assign(n, e) == [t |-> "assign", n |-> n, e |-> e]
+IdxAssign(l, i, e) == [t |-> "idxassign", l |-> l, i |-> i, e |-> e]
 Brk         == [t |-> "brk"]
 Cnt         == [t |-> "cnt"]
 If(c, th)   == [t |-> "if", c |-> c, th |-> th, eifs |-> <<>>, el |-> <<>>, hasel |-> FALSE]
@@ -87,6 +90,7 @@ IfElse(c, th, el) == [t |-> "if", c |-> c, th |-> th, eifs |-> <<>>, el |-> el, 
 IfChain(c, th, eifs, el, hasel) == [t |-> "if", c |-> c, th |-> th, eifs |-> eifs, el |-> el, hasel |-> hasel]
 For(kn, vn, it, body) == [t |-> "for", kn |-> kn, vn |-> vn, it |-> it, body |-> body]
 Text(s)     == [t |-> "text", s |-> s]
+EText(src, s) == [t |-> "etext", src |-> src, s |-> s]       \* text spelled src that means s (the two escapes of C02)
 Emit(e)     == [t |-> "emit", e |-> e]
 Code(e)     == [t |-> "code", e |-> e]
 Let(n, e)   == [t |-> "let", n |-> n, e |-> e]
